@@ -480,17 +480,23 @@ func keysOf(m map[string]bool) []string {
 func genC03Edits(r *rand.Rand, s *oci.Spec, hosts []HostNode) *specs.ContainerEdits {
 	e := &specs.ContainerEdits{}
 	// env
-	envPool := []string{"NEW1", "NEW2", "CDI_X"}
+	// names that are prefixes, extensions and case variants of each other: a
+	// variable is identified by its whole name
+	envPool := []string{"NEW1", "NEW2", "CDI_X", "NEW", "NEW1_MODE", "new1", "CDI_X_MODE", "CDI", "N"}
 	if s.Process != nil {
 		for _, x := range s.Process.Env {
-			envPool = append(envPool, envName(x))
+			n := envName(x)
+			envPool = append(envPool, n, n+"_2", n+"2")
+			if len(n) > 1 {
+				envPool = append(envPool, n[:len(n)-1], n[:1])
+			}
 		}
 	}
-	for i := 0; i < r.Intn(6); i++ {
+	for i := 0; i < r.Intn(8); i++ {
 		e.Env = append(e.Env, envPool[r.Intn(len(envPool))]+"="+pickStr(r, "", "v", "a=b", "x y", fmt.Sprint(r.Intn(9))))
 	}
 	// device nodes
-	devPool := []string{"/dev/n1", "/dev/n2", "/dev/n3"}
+	devPool := []string{"/dev/n1", "/dev/n2", "/dev/n3", "/dev/n", "/dev/n10", "/dev/n1/sub", "/dev/N1"}
 	if s.Linux != nil {
 		for _, d := range s.Linux.Devices {
 			devPool = append(devPool, d.Path)
@@ -536,7 +542,7 @@ func genC03Edits(r *rand.Rand, s *oci.Spec, hosts []HostNode) *specs.ContainerEd
 		}
 	}
 	// mounts
-	mntPool := []string{"/", "/new", "/new/sub", "/a/b/c/d/e", "/n1", "/n2", "/n3", "/n4", "/n5/x", "/n6/x", "/n7/x/y"}
+	mntPool := []string{"/", "/new", "/new/sub", "/a/b/c/d/e", "/n1", "/n2", "/n3", "/n4", "/n5/x", "/n6/x", "/n7/x/y", "/n", "/n10", "/new2", "/N1"}
 	for _, m := range s.Mounts {
 		mntPool = append(mntPool, m.Destination)
 	}
